@@ -4,6 +4,7 @@ import (
 	"crypto/sha256"
 	"encoding/hex"
 	"fmt"
+	"runtime"
 	"strconv"
 
 	"github.com/golang/protobuf/proto"
@@ -410,14 +411,26 @@ func (u *Unit) nested(st *trie.SlimTrie, sb *obuf, k []byte, y func()) {
 // iterState is a live iterator unit.
 type iterState struct {
 	u    *Unit
+	st   *trie.SlimTrie
 	next trie.NextRaw
 	left int
 	sb   obuf
 	dead bool
+
+	lastK    []byte // the key yielded last, as handed out (not copied)
+	lastCopy []byte
 }
 
+// retainCheck (free-running race lane only: under the simulator finalizers
+// never run, 12.20): when an iterator is finished the harness drops it but
+// keeps the key it yielded last, lets the collector and the finalizers run,
+// walks a fresh iterator and looks at the kept key again. A key stays valid
+// until the next call of the SAME iterator; memory handed to the caller must
+// not come back through a pool while the caller can still see it.
+var retainCheck bool
+
 func (u *Unit) open(st *trie.SlimTrie) (it *iterState) {
-	it = &iterState{u: u, left: u.Limit}
+	it = &iterState{u: u, st: st, left: u.Limit}
 	if it.left <= 0 {
 		it.left = 1
 	}
@@ -463,9 +476,37 @@ func (it *iterState) step() {
 	it.sb.c('=')
 	it.sb.hexOrNil(v)
 	it.sb.c(';')
+	if retainCheck {
+		it.lastK, it.lastCopy = k, append(it.lastCopy[:0], k...)
+	}
 }
 
-func (it *iterState) outcome() string { return it.sb.String() }
+func (it *iterState) outcome() string {
+	if retainCheck && it.lastK != nil && !it.dead {
+		it.next = nil // unreachable from here on; the key it yielded is not
+		func() {
+			defer func() { recover() }()
+			runtime.GC()
+			runtime.Gosched()
+			runtime.GC() // (objects with finalizers need a second cycle)
+			runtime.Gosched()
+			nx := it.st.NewIter(string(it.u.Q), true, false)
+			for i := 0; i < 3; i++ {
+				if k, _ := nx(); k == nil {
+					break
+				}
+			}
+		}()
+		if string(it.lastK) != string(it.lastCopy) {
+			it.sb.s("RETAINED-KEY-OVERWRITTEN:")
+			it.sb.hex(it.lastCopy)
+			it.sb.s("->")
+			it.sb.hex(it.lastK)
+		}
+		it.lastK = nil
+	}
+	return it.sb.String()
+}
 
 // ---------------------------------------------------------------------------
 // unit generation
@@ -536,6 +577,20 @@ func genUnit(r *Rng, qs [][]byte, mix UnitMix) Unit {
 		u.Spread = r.Chance(0.6)
 	default:
 		u.Q = pick()
+	}
+	// long scans: most scans stop after a handful of entries (the callback
+	// says so); some run on - to the end of a small trie, a few dozen entries
+	// of a larger one. Read-ahead, batching and "the trie is exhausted" paths
+	// only exist beyond the first entries.
+	switch u.Kind {
+	case "scanfrom", "scanfromto", "iter":
+		if r.Chance(0.15) {
+			if mix.Small {
+				u.Limit = 100000
+			} else {
+				u.Limit = r.PickI(12, 40, 150)
+			}
+		}
 	}
 	return u
 }
